@@ -47,6 +47,8 @@ def run_one(item):
                 else:
                     detail.append('failed, but not the expected obligation ' + exp)
                     caught = True
+        if any('exit=2' in d for d in detail) and not caught:
+            return name, 'FAULT', '\n    '.join(detail), time.time() - t0
         if meta.get('kind') == 'harmless':
             status = 'OK(no alarm)' if not caught and all('exit=0' in d for d in detail) else 'FALSE-ALARM'
         else:
@@ -65,6 +67,6 @@ if __name__ == '__main__':
     with concurrent.futures.ThreadPoolExecutor(j) as ex:
         for name, status, detail, secs in ex.map(run_one, items):
             print('%-12s %-45s %.0fs\n    %s' % (status, name, secs, detail))
-            if status in ('MISSED', 'FALSE-ALARM', 'PATCH-FAILED'): bad += 1
+            if status in ('MISSED', 'FALSE-ALARM', 'PATCH-FAILED', 'FAULT'): bad += 1
     print('%d mutants, %d problems' % (len(items), bad))
     sys.exit(1 if bad else 0)
